@@ -2,7 +2,7 @@
 //! closed-form wrappers (`details::*`), the free functions `query::{distance,closest_points,contact,intersection_test}`
 //! on the closed-form routes (bit-exact) and on GJK routes (oracle-only, both orders + common isometry).
 use crate::util::*;
-use crate::p3::query::{self, details, ClosestPoints, Contact, DefaultQueryDispatcher, PointQuery, QueryDispatcher, ShapeCastHit, ShapeCastOptions, ShapeCastStatus};
+use crate::p3::query::{self, details, sat, ClosestPoints, Contact, DefaultQueryDispatcher, PointQuery, QueryDispatcher, ShapeCastHit, ShapeCastOptions, ShapeCastStatus};
 use crate::p3::shape::{Ball, Capsule, Compound, Cuboid, HalfSpace, Segment, Shape, SharedShape, SupportMap, TriMesh, TriMeshFlags, Triangle};
 use crate::p3::na;
 use d3::{Isometry, Point, Real, Vector};
@@ -250,6 +250,21 @@ pub fn exec(func: &str, a: &mut Args) -> String {
             let dist0 = query::distance(&p1, &*g1, &p2, &*g2).unwrap_or(f64::NAN);
             format!("{} ; {} ; {} ; {} ; {}", aa, bb, cc, dd, ff(dist0))
         }
+        // ---- closed-form cuboid/cuboid separating-axis test (bit-exact): he1 he2 pos12 [axis]
+        "sat_sep_line" => { let h1 = d3::v(a); let h2 = d3::v(a); let m = d3::iso(a); let ax = d3::v(a);
+            let (s, d) = sat::cuboid_cuboid_compute_separation_wrt_local_line(&Cuboid::new(h1), &Cuboid::new(h2), &m, &ax);
+            format!("{} {}", ff(s), d3::fv(&d)) }
+        "sat_edge_twoway" => { let h1 = d3::v(a); let h2 = d3::v(a); let m = d3::iso(a);
+            let (s, d) = sat::cuboid_cuboid_find_local_separating_edge_twoway(&Cuboid::new(h1), &Cuboid::new(h2), &m);
+            format!("{} {}", ff(s), d3::fv(&d)) }
+        "sat_normal_oneway" => { let h1 = d3::v(a); let h2 = d3::v(a); let m = d3::iso(a);
+            let (s, d) = sat::cuboid_cuboid_find_local_separating_normal_oneway(&Cuboid::new(h1), &Cuboid::new(h2), &m);
+            format!("{} {}", ff(s), d3::fv(&d)) }
+        "d_it_cc" => { let h1 = d3::v(a); let h2 = d3::v(a); let m = d3::iso(a);
+            b(details::intersection_test_cuboid_cuboid(&m, &Cuboid::new(h1), &Cuboid::new(h2))).into() }
+        // the free function through the real dispatcher: he1 pos1 he2 pos2
+        "q_it_cc" => { let h1 = d3::v(a); let p1 = d3::iso(a); let h2 = d3::v(a); let p2 = d3::iso(a);
+            res(query::intersection_test(&p1, &Cuboid::new(h1), &p2, &Cuboid::new(h2)), |x| b(*x).to_string()) }
         f if f.contains("2_") => two::exec(f, a),
         _ => "nofn".into(),
     }
@@ -576,7 +591,161 @@ pub fn gen(r: &mut Rng, thorough: bool) -> Vec<(String, String)> {
                 d3::hiso(&g), hx(target), b(r.bool()), hx(maxtoi))));
         }
     }
+    // ---- follow-up 2 (appended after the loop so that the cases above are unchanged for a given seed):
+    //      edge/edge configurations, closed-form cuboid/cuboid separating-axis functions
+    for it in 0..n { gen_edge_families(r, it, &mut v); }
     v
+}
+
+// ------------------------------------------------------------------ edge/edge configurations (follow-up 2)
+/// vertices and edge directions (local frame) of a polytope-like shape, and its rounding radius
+pub fn poly_of(s: &Sh) -> Option<(Vec<Point<Real>>, Vec<Vector<Real>>, f64)> {
+    match s {
+        Sh::Cuboid(he) => {
+            let mut vs = Vec::new();
+            for sx in [-1.0, 1.0] { for sy in [-1.0, 1.0] { for sz in [-1.0, 1.0] { vs.push(Point::new(sx * he.x, sy * he.y, sz * he.z)); } } }
+            Some((vs, vec![Vector::x(), Vector::y(), Vector::z()], 0.0))
+        }
+        Sh::Triangle(a, b, c) => Some((vec![*a, *b, *c], vec![b - a, c - b, a - c], 0.0)),
+        Sh::Segment(a, b) => Some((vec![*a, *b], vec![b - a], 0.0)),
+        Sh::Capsule(a, b, r) => Some((vec![*a, *b], vec![b - a], *r)),
+        _ => None,
+    }
+}
+/// the 15 candidate separations of two cuboids (faces of 1, faces of 2, the 9 edge/edge axes with index 6 + 3 j + i for
+/// e_i x R e_j), computed from the rotation matrix with the generator's own arithmetic; degenerate edge axes give -inf
+pub fn sat15(he1: &Vector<Real>, he2: &Vector<Real>, pos12: &Isometry<Real>) -> [f64; 15] {
+    let rm = pos12.rotation.to_rotation_matrix();
+    let t = pos12.translation.vector;
+    let col = |j: usize| Vector::new(rm[(0, j)], rm[(1, j)], rm[(2, j)]);
+    let e = |i: usize| { let mut x = Vector::zeros(); x[i] = 1.0; x };
+    let sep = |d: &Vector<Real>| -> f64 {
+        let n = d.norm();
+        if n < 1e-9 { return f64::NEG_INFINITY; }
+        let r1: f64 = (0..3).map(|k| he1[k] * d[k].abs()).sum();
+        let r2: f64 = (0..3).map(|k| he2[k] * col(k).dot(d).abs()).sum();
+        (t.dot(d).abs() - r1 - r2) / n
+    };
+    let mut out = [0.0; 15];
+    for i in 0..3 { out[i] = sep(&e(i)); out[3 + i] = sep(&col(i)); }
+    for j in 0..3 { for i in 0..3 { out[6 + 3 * j + i] = sep(&e(i).cross(&col(j))); } }
+    out
+}
+/// relative pose placing the two shapes in an edge/edge configuration: the closest features are an edge of `s1`
+/// (direction index `i`) and an edge of `s2` (direction index `j`), crossing in their interiors, `gap` apart along
+/// `n = ± e1_i x R e2_j`.  Returns (pos12, n).
+pub fn gen_edge_edge(r: &mut Rng, lat: bool, s1: &Sh, s2: &Sh, i: usize, j: usize, gap: f64) -> Option<(Isometry<Real>, Vector<Real>)> {
+    let (v1, e1, r1) = poly_of(s1)?; let (v2, e2, r2) = poly_of(s2)?;
+    let scale = size(s1) + size(s2);
+    for _ in 0..30 {
+        let rot = iso_of(if lat { tilted_quat(r) } else { d3::gen_quat(r, false) }, Vector::zeros());
+        let da = e1[i % e1.len()]; let db = rot * e2[j % e2.len()];
+        let c = da.cross(&db);
+        if c.norm() < 0.2 * da.norm() * db.norm() { continue; }
+        let n = c.normalize() * if r.bool() { 1.0 } else { -1.0 };
+        let sup = |vs: &Vec<Point<Real>>, m: &Isometry<Real>, d: &Vector<Real>| -> Vec<Point<Real>> {
+            let w: Vec<Point<Real>> = vs.iter().map(|p| m * p).collect();
+            let best = w.iter().map(|p| p.coords.dot(d)).fold(f64::NEG_INFINITY, f64::max);
+            w.into_iter().filter(|p| p.coords.dot(d) > best - 1e-9 * (1.0 + scale)).collect()
+        };
+        let f1 = sup(&v1, &Isometry::identity(), &n); let f2 = sup(&v2, &rot, &(-n));
+        if f1.len() != 2 || f2.len() != 2 { continue; }
+        let u = |r: &mut Rng| if lat { *r.pick(&[0.25, 0.5, 0.75]) } else { r.uniform(0.15, 0.85) };
+        let a = f1[0] + (f1[1] - f1[0]) * u(r);
+        let bb = f2[0] + (f2[1] - f2[0]) * u(r);
+        let t = a.coords + n * (gap + r1 + r2) - bb.coords;
+        return Some((Isometry::from_parts(na::Translation3::from(t), rot.rotation), n));
+    }
+    None
+}
+/// a generic (no edge of one cuboid parallel to a face of the other) rotation with short decimal coordinates: the product
+/// of two 3-4-5 half-angle rotations about two different coordinate axes
+pub fn tilted_quat(r: &mut Rng) -> [f64; 4] {
+    let a = r.below(3) as usize; let b = (a + 1 + r.below(2) as usize) % 3;
+    let mk = |r: &mut Rng, k: usize| { let mut v = Vector::zeros(); v[k] = if r.bool() { 0.6 } else { -0.6 };
+        na::Quaternion::from_parts(if r.bool() { 0.8 } else { -0.8 }, v) };
+    let q = mk(r, a) * mk(r, b);
+    [q.i, q.j, q.k, q.w]
+}
+fn hcc(h1: &Vector<Real>, h2: &Vector<Real>, m: &Isometry<Real>) -> String { format!("{} {} {}", d3::hv(h1), d3::hv(h2), d3::hiso(m)) }
+
+pub fn gen_edge_families(r: &mut Rng, it: usize, v: &mut Vec<(String, String)>) {
+    let lat = it % 2 == 0;
+    let ext = |r: &mut Rng| if lat { *r.pick(&[0.25, 0.5, 1.0, 1.5, 2.0, 4.0]) } else if r.below(4) == 0 { r.logu(1e-2, 1e2) } else { r.uniform(0.2, 3.0) };
+    let push_o = |r: &mut Rng, v: &mut Vec<(String, String)>, s1: &Sh, p1: &Isometry<Real>, s2: &Sh, p2: &Isometry<Real>| {
+        let glat = lat && r.bool(); let g = d3::gen_iso(r, glat, 100.0);
+        let par = gen_param(r, lat);
+        let sw = format!("{} {} {} {} {}", hsh(s1), d3::hiso(p1), hsh(s2), d3::hiso(p2), d3::hiso(&g));
+        v.push(("o_contact".into(), format!("{} {}", sw, hx(par))));
+        v.push(("o_cp".into(), format!("{} {}", sw, hx(par))));
+        v.push(("o_distance".into(), sw.clone()));
+        v.push(("o_it".into(), sw));
+    };
+    // ---- A. cuboid/cuboid, edge i of cuboid 1 against edge j of cuboid 2: every one of the 9 pairs in turn.
+    //      In two thirds of the cases the configuration is kept only if NO OTHER of the 15 candidate axes separates
+    //      (so that the verdict depends on this one entry of the edge/edge table); gaps from 1e-4 to 0.3 of the
+    //      smallest extent, both signs, and exactly 0
+    {
+        let (i, j) = ((it / 2) % 3, (it / 6) % 3);
+        let h1 = Vector::new(ext(r), ext(r), ext(r)); let h2 = Vector::new(ext(r), ext(r), ext(r));
+        let smin = h1.min().min(h2.min());
+        let only = r.below(3) != 0;
+        let mut found = None;
+        for _ in 0..20 {
+            let mag = if lat { *r.pick(&[0.0, 0.015625, 0.125, 0.25]) } else { r.logu(1e-4, 0.3) };
+            let gap = smin * mag * if r.below(4) == 0 { -1.0 } else { 1.0 };
+            if let Some((pos12, n)) = gen_edge_edge(r, lat, &Sh::Cuboid(h1), &Sh::Cuboid(h2), i, j, gap) {
+                let s15 = sat15(&h1, &h2, &pos12);
+                let others_overlap = (0..15).all(|k| k == 6 + 3 * j + i || s15[k] < 0.0);
+                if !only || gap <= 0.0 || others_overlap { found = Some((pos12, n)); break; }
+            }
+        }
+        if let Some((pos12, n)) = found {
+            let pinv = pos12.inverse();
+            let ts = if r.below(4) == 0 { 1000.0 } else { 20.0 }; let p1 = d3::gen_iso(r, lat, ts);
+            let p2 = p1 * pos12;
+            // the axis of the configuration, a random (possibly non-unit) one, a face normal of cuboid 2
+            let rnd = gen_normal(r, lat) * if r.bool() { 1.0 } else { r.logu(1e-2, 1e2) };
+            for ax in [n, rnd, pos12 * Vector::ith(r.below(3) as usize, 1.0)] {
+                v.push(("sat_sep_line".into(), format!("{} {}", hcc(&h1, &h2, &pos12), d3::hv(&ax))));
+            }
+            v.push(("sat_sep_line".into(), format!("{} {}", hcc(&h2, &h1, &pinv), d3::hv(&(pinv * -n)))));
+            for f in ["sat_edge_twoway", "sat_normal_oneway", "d_it_cc"] {
+                v.push((f.into(), hcc(&h1, &h2, &pos12)));
+                v.push((f.into(), hcc(&h2, &h1, &pinv)));
+            }
+            v.push(("q_it_cc".into(), format!("{} {} {} {}", d3::hv(&h1), d3::hiso(&p1), d3::hv(&h2), d3::hiso(&p2))));
+            v.push(("q_it_cc".into(), format!("{} {} {} {}", d3::hv(&h2), d3::hiso(&p2), d3::hv(&h1), d3::hiso(&p1))));
+            push_o(r, v, &Sh::Cuboid(h1), &p1, &Sh::Cuboid(h2), &p2);
+        }
+    }
+    // ---- B. edge/edge configurations of any two polytope-like shapes (cuboid, triangle, segment, capsule)
+    {
+        let kinds: [u8; 4] = [1, 3, 4, 5];
+        let mk = |r: &mut Rng| if r.below(3) == 0 { Sh::Cuboid(Vector::new(ext(r), ext(r), ext(r))) } else { gen_shape(r, lat, &kinds) };
+        let s1 = mk(r); let s2 = mk(r);
+        let smin = size(&s1).min(size(&s2)).max(1e-2);
+        let mag = if lat { *r.pick(&[0.0, 0.015625, 0.125, 0.25]) } else { r.logu(1e-4, 0.3) };
+        let gap = smin * mag * if r.below(4) == 0 { -1.0 } else { 1.0 };
+        let (ei, ej) = (r.below(3) as usize, r.below(3) as usize);
+        if let Some((pos12, _)) = gen_edge_edge(r, lat, &s1, &s2, ei, ej, gap) {
+            let ts = if r.below(4) == 0 { 1000.0 } else { 20.0 }; let p1 = d3::gen_iso(r, lat, ts);
+            let p2 = p1 * pos12;
+            push_o(r, v, &s1, &p1, &s2, &p2);
+        }
+    }
+    // ---- C. the closed-form functions on unstructured cuboid pairs (far / face-separated / overlapping / vertex contacts)
+    {
+        let (s1, s2) = (Sh::Cuboid(d3::gen_he(r, lat)), Sh::Cuboid(d3::gen_he(r, lat)));
+        let (p1, p2, pos12) = gen_poses(r, lat, &s1, &s2);
+        if let (Sh::Cuboid(h1), Sh::Cuboid(h2)) = (&s1, &s2) {
+            for f in ["sat_edge_twoway", "sat_normal_oneway", "d_it_cc"] { v.push((f.into(), hcc(h1, h2, &pos12))); }
+            v.push(("sat_sep_line".into(), format!("{} {}", hcc(h1, h2, &pos12), d3::hv(&gen_normal(r, lat)))));
+            v.push(("q_it_cc".into(), format!("{} {} {} {}", d3::hv(h1), d3::hiso(&p1), d3::hv(h2), d3::hiso(&p2))));
+            v.push(("q_it_cc".into(), format!("{} {} {} {}", d3::hv(h2), d3::hiso(&p2), d3::hv(h1), d3::hiso(&p1))));
+        }
+    }
+    two::gen_sat(r, lat, v);
 }
 
 // ================================================================== 2-D (parry2d-f64)
@@ -663,6 +832,13 @@ pub mod two {
             "d2_contact" => { let s1 = sh(a); let s2 = sh(a); let m = d2::iso(a); let p = a.f(); d_contact(&s1, &s2, &m, p) }
             "q2_contact" => { let s1 = sh(a); let p1 = d2::iso(a); let s2 = sh(a); let p2 = d2::iso(a); let p = a.f();
                 res(query::contact(&p1, &*dynsh(&s1), &p2, &*dynsh(&s2), p), fcontact) }
+            "sat2_normal_oneway" => { let h1 = d2::v(a); let h2 = d2::v(a); let m = d2::iso(a);
+                let (s, d) = query::sat::cuboid_cuboid_find_local_separating_normal_oneway(&Cuboid::new(h1), &Cuboid::new(h2), &m);
+                format!("{} {}", ff(s), d2::fv(&d)) }
+            "d2_it_cc" => { let h1 = d2::v(a); let h2 = d2::v(a); let m = d2::iso(a);
+                b(details::intersection_test_cuboid_cuboid(&m, &Cuboid::new(h1), &Cuboid::new(h2))).into() }
+            "q2_it_cc" => { let h1 = d2::v(a); let p1 = d2::iso(a); let h2 = d2::v(a); let p2 = d2::iso(a);
+                res(query::intersection_test(&p1, &Cuboid::new(h1), &p2, &Cuboid::new(h2)), |x| b(*x).to_string()) }
             "o2_contact" | "o2_distance" | "o2_it" | "o2_cp" => {
                 let s1 = sh(a); let p1 = d2::iso(a); let s2 = sh(a); let p2 = d2::iso(a); let g = d2::iso(a);
                 let p = if func == "o2_contact" || func == "o2_cp" { a.f() } else { 0.0 };
@@ -917,6 +1093,43 @@ pub mod two {
             v.push(("o2_cast".into(), format!("{} {} {} {} {} {} {} {} {} {}", hsh(&s1), d2::hiso(&p1), d2::hv(&v1), hsh(&s2), d2::hiso(&p2), d2::hv(&v2),
                 d2::hiso(&g), hx(target), b(r.bool()), hx(maxtoi))));
         }
+    }
+    /// follow-up 2: the closed-form 2-D cuboid/cuboid separating-axis test; vertex of one near an edge of the other
+    /// (gap from 1e-4 to 0.3 of the smallest extent, both signs, exactly 0), and unstructured pairs
+    pub fn gen_sat(r: &mut Rng, lat: bool, v: &mut Vec<(String, String)>) {
+        let ext = |r: &mut Rng| if lat { *r.pick(&[0.25, 0.5, 1.0, 1.5, 2.0, 4.0]) } else if r.below(4) == 0 { r.logu(1e-2, 1e2) } else { r.uniform(0.2, 3.0) };
+        let h1 = Vector::new(ext(r), ext(r)); let h2 = Vector::new(ext(r), ext(r));
+        let rot = iso_of(d2::gen_rot(r, lat), Vector::zeros());
+        let pos12 = if r.below(3) == 0 { gen_poses(r, lat, &Sh::Cuboid(h1), &Sh::Cuboid(h2)).2 } else {
+            // the face of cuboid 1 with outward normal `nrm` against the deepest vertex of cuboid 2
+            let k = r.below(2) as usize; let mut nrm = Vector::zeros(); nrm[k] = if r.bool() { 1.0 } else { -1.0 };
+            let d = rot.inverse_transform_vector(&(-nrm));
+            let deep = rot * Point::new(h2.x.copysign(d.x), h2.y.copysign(d.y));
+            let smin = h1.min().min(h2.min());
+            let mag = if lat { *r.pick(&[0.0, 0.015625, 0.125, 0.25]) } else { r.logu(1e-4, 0.3) };
+            let gap = smin * mag * if r.below(4) == 0 { -1.0 } else { 1.0 };
+            let mut on_face = Vector::new(h1.x, h1.y).component_mul(&Vector::new(r.uniform(-0.9, 0.9), r.uniform(-0.9, 0.9)));
+            if lat { on_face = Vector::new(h1.x * quarter(r, 3), h1.y * quarter(r, 3)); }
+            on_face[k] = nrm[k] * h1[k];
+            iso_of((rot.rotation.re, rot.rotation.im), on_face + nrm * gap - deep.coords)
+        };
+        let (pos12, h1, h2) = if r.bool() { (pos12, h1, h2) } else { (pos12.inverse(), h2, h1) };
+        let pinv = pos12.inverse();
+        let ts = if r.below(4) == 0 { 1000.0 } else { 20.0 }; let p1 = d2::gen_iso(r, lat, ts);
+        let p2 = p1 * pos12;
+        for f in ["sat2_normal_oneway", "d2_it_cc"] {
+            v.push((f.into(), format!("{} {} {}", d2::hv(&h1), d2::hv(&h2), d2::hiso(&pos12))));
+            v.push((f.into(), format!("{} {} {}", d2::hv(&h2), d2::hv(&h1), d2::hiso(&pinv))));
+        }
+        v.push(("q2_it_cc".into(), format!("{} {} {} {}", d2::hv(&h1), d2::hiso(&p1), d2::hv(&h2), d2::hiso(&p2))));
+        v.push(("q2_it_cc".into(), format!("{} {} {} {}", d2::hv(&h2), d2::hiso(&p2), d2::hv(&h1), d2::hiso(&p1))));
+        let glat = lat && r.bool(); let g = d2::gen_iso(r, glat, 100.0);
+        let par = super::gen_param(r, lat);
+        let sw = format!("{} {} {} {} {}", hsh(&Sh::Cuboid(h1)), d2::hiso(&p1), hsh(&Sh::Cuboid(h2)), d2::hiso(&p2), d2::hiso(&g));
+        v.push(("o2_contact".into(), format!("{} {}", sw, hx(par))));
+        v.push(("o2_cp".into(), format!("{} {}", sw, hx(par))));
+        v.push(("o2_distance".into(), sw.clone()));
+        v.push(("o2_it".into(), sw));
     }
     /// C02: contact self-consistency cases in 2-D (Compound with rotated parts / Polyline against convex shapes, both orders)
     pub fn gen_k(r: &mut Rng, lat: bool, v: &mut Vec<(String, String)>) {
